@@ -1,11 +1,55 @@
-import PcfgVerif.Model.EditRules
+import PcfgVerif.Properties.EditCore
 /-!
 # C20 — edit_rules only removes base structures, and only those that fail the filter
-(filter theorems are added when proved)
+
+`gText rows` is a grammar.txt whose lines are `labels<TAB>probability`.  The three filters are shown
+to be plain `List.filter`s on the rows: survivors keep their order and are byte-identical
+(structure and probability text), nothing else is produced.  "No other file touched" and `--copy`
+are file-system facts checked by the harness (directory hashes).  The length claim: a kept
+non-Markov structure has its label total within the bounds; labels A/D/O/K state the length of
+their values and Y is 4, so every guess has that length — except for `X`, whose label number is not
+a length (known finding).
 -/
 namespace Pcfg.C20
 
-/-- a year counts four characters -/
-theorem C20_year_length : Generated.EditRules.yearLen = 4 ∧ Generated.EditRules.totalStart = 0 := by decide
+/-- min_length and max_length: exactly the rows whose label total passes, in order, unchanged -/
+theorem C20_length_filter (mn mx : Nat) (rows : List (List CPs × CPs))
+    (h : ∀ r ∈ rows, r.1 ≠ [] ∧ (∀ t ∈ r.1, IsLabel t) ∧ IsProbText r.2 ∧ (totalLen r.1).isSome) :
+    (editLengthLines mn mx (textLines (gText rows))).map List.flatten =
+      some (gText (rows.filter fun r => Generated.EditRules.keepLen ((totalLen r.1).getD 0) mn mx)) :=
+  editLength_filter mn mx rows h
+
+/-- `--terminal_set` -/
+theorem C20_terminal_filter (allowed : List Nat) (rows : List (List CPs × CPs))
+    (h : ∀ r ∈ rows, r.1 ≠ [] ∧ (∀ t ∈ r.1, IsLabel t) ∧ IsProbText r.2) :
+    (editTerminalLines allowed (textLines (gText rows))).map List.flatten =
+      some (gText (rows.filter fun r => r.1.all fun t => allowed.contains (t.headD 0))) :=
+  editTerminal_filter allowed rows h
+
+/-- `--regex` (the user's regexes as an abstract predicate on the structure string) -/
+theorem C20_regex_filter (ok : CPs → Bool) (rows : List (List CPs × CPs))
+    (h : ∀ r ∈ rows, r.1 ≠ [] ∧ (∀ t ∈ r.1, IsLabel t) ∧ IsProbText r.2) :
+    (checkRegexLines ok (textLines (gText rows))).map List.flatten =
+      some (gText (rows.filter fun r => ok r.1.flatten)) :=
+  checkRegex_filter ok rows h
+
+/-- a structure is never rewritten: its tokens are its labels, whatever their number of digits -/
+theorem C20_labels_intact (labels : List CPs) (prob : CPs) (hl : ∀ t ∈ labels, IsLabel t)
+    (hp : IsProbText prob) : tokenize (gLine labels prob) = labels :=
+  tokenize_gLine labels prob hl hp
+
+/-- a kept structure: the Markov structure (total 0), or min ≤ total and (no max or total ≤ max) -/
+theorem C20_length_bounds (total mn mx : Nat) :
+    Generated.EditRules.keepLen total mn mx = true ↔
+      (total = 0 ∨ (mn ≤ total ∧ (mx = 0 ∨ total ≤ mx))) :=
+  keepLen_spec total mn mx
+
+/-- the length attributed to a label: its number for A, D, O, K (and X), 4 for Y, 0 otherwise (M) -/
+theorem C20_label_length (c : Nat) (ds : CPs) (hc : isUpperAZ c = true) (hds : ds ≠ []) :
+    tokenLen (c :: ds) =
+      if c = 0x59 then some 4
+      else if c = 0x41 ∨ c = 0x44 ∨ c = 0x4f ∨ c = 0x4b ∨ c = 0x58 then digitsVal ds
+      else some 0 :=
+  tokenLen_spec c ds hc hds
 
 end Pcfg.C20
